@@ -65,6 +65,13 @@ def gen_kids(r, tbl, nkids, outside=False, immutable_bias=False):
         else:
             w, ro, label = D.gen_child_caps(r, tbl, allow_odd=True, known_writecap_in_ro_slot=True)
         md = D.gen_metadata(r) if r.random() < 0.8 else D.gen_json(r) if False else {}
+        if r.random() < 0.12:
+            # JSON text may carry unpaired surrogates (a surrogate-escaped file name, a web-API body); astral characters too
+            odd = r.choice(["caf\udce9.txt", "\ud800", "x\udfffy", "\U0001f600", "\udce9\udce9"])
+            if r.random() < 0.5:
+                md[odd] = r.choice([1, "v", odd])
+            else:
+                md[r.choice(["orig-name", "k"])] = r.choice([odd, [odd], {"n": odd}])
         kids.append((namex, w, ro, label, md))
     return kids
 
@@ -148,6 +155,11 @@ def mutable_case(ctx, i, terms, info, outside=False):
         perr = None
     except CapConstraintError as e:
         packed, perr = None, e
+    except Exception as e:
+        ctx.case(None, kind="mutable:packer-raised")
+        ctx.oracle_fail("pack-children-raises-on-valid-children", "pack_children raised %s: %s on children and JSON metadata it must store"
+                        % (type(e).__name__, str(e)[:200]), case=case, expected="packed bytes", observed=type(e).__name__)
+        return
     # --- oracle: error nodes are refused with their own error (first in name order)
     bad = [name for name in sorted(final) if D.node_obs(final[name][0])[4] is not None]
     labels = sorted(set(v[2] for v in final.values()))
@@ -243,6 +255,11 @@ def immutable_case(ctx, i, terms, info):
         perr = None
     except CapConstraintError as e:
         packed, perr = None, e
+    except Exception as e:
+        ctx.case(None, kind="immutable:packer-raised")
+        ctx.oracle_fail("pack-children-raises-on-valid-children", "pack_children(deep_immutable=True) raised %s: %s on children and JSON metadata it must store"
+                        % (type(e).__name__, str(e)[:200]), case=case, expected="packed bytes or a CapConstraintError", observed=type(e).__name__)
+        return
     obs = {name: D.node_obs(v[0]) for name, v in final.items()}
     # first child (name order) that is an error node, or mutable / write-capable
     first_bad = None
